@@ -102,11 +102,15 @@ def gen(ctx):
         cases.append(lines)
     for _ in range(800 if quick else 30000):
         n = r.choice([0, 1, 2, 3, 5, 8, 20, 60])
-        base = [rs(r.randrange(0, 5)) for _ in range(max(1, n // 2))]
-        strs = [variant(r.choice(base)) for _ in range(n)]
         loc = r.choice(["-", "-", "tr"])
         fl = r.choice(flagsets)
         if "c" in fl: loc = "-"
+        base = [rs(r.randrange(0, 5)) for _ in range(max(1, n // 2))]
+        if "c" not in fl:
+            # strings that agree up to an embedded U+0000 and differ behind it
+            base = [b[:1] + [0] + b[1:] if r.random() < 0.3 else b for b in base]
+        strs = [variant(r.choice(base)) for _ in range(n)]
+        if "c" in fl: strs = [[c for c in x if c != 0] for x in strs]
         cases.append(["cf sort %s %s %s" % (fl, loc, " ".join(hx(CR.enc(s)) for s in strs))])
     return cases
 
